@@ -84,7 +84,8 @@ def _get_shortest_public_reexport(
 
     shortest_id = None
     alias = None
-    for module_id_tuple in module_ids:
+    # Sort, so that the choice between reexports of equal length does not depend on the set iteration order
+    for module_id_tuple in sorted(module_ids, key=lambda it: (it[0], it[1] or "")):
         module_id_parts = module_id_tuple[0].split("/")
         if shortest_id is None or len(module_id_parts) < len(shortest_id):
             shortest_id = module_id_parts
